@@ -45,9 +45,21 @@ func c03CheckRound(mode string, rd *xwRound, startRefs []xwRef, startObjs []xwOb
 	}
 	deleted := map[string]bool{}
 	writes := 0
+	// direct monitor (independent of the model): once a read of a REFERENCED composed resource
+	// has been answered with an error other than NotFound, observing the existing composed
+	// resources has failed, and nothing may be written to a composed resource or to the XR's
+	// spec (resourceRefs) in this reconcile
+	obsFailed := ""
 	for _, c := range o.Calls {
 		f := strings.Fields(c)
 		verb, key := f[0], f[1]
+		if verb == "get" && !strings.HasPrefix(key, "XThing/") && inRefs[key] && obsFailed == "" &&
+			(strings.Contains(c, " fail>") || strings.Contains(c, " conflict>")) {
+			obsFailed = c
+		} else if obsFailed != "" && verb != "get" && !strings.HasSuffix(key, "/status") &&
+			(strings.Contains(c, " ok>") && !strings.HasSuffix(c, ">notFound") || strings.Contains(c, " crashAfter>")) {
+			w.mon("C03:write-after-failed-observation", fmt.Sprintf("%q was applied although reading the referenced composed resource failed before (%q)", c, obsFailed))
+		}
 		applied := strings.Contains(c, " ok>") && !strings.HasSuffix(c, ">notFound") || strings.Contains(c, " crashAfter>")
 		if !applied {
 			continue
@@ -104,17 +116,61 @@ func c03GenXW(r *Rng) xwScn {
 			s.Rounds[i].Fault = nil
 		}
 	}
+	// aim a failing answer at the LIVE fallback read of a referenced composed resource (cached
+	// read: NotFound because the object is missing from the cache, or does not exist)
+	if r.Chance(1, 5) && len(s.Refs) > 0 {
+		exists := map[string]bool{}
+		for _, o := range s.Objs {
+			exists[o.Kind+"/"+o.Name] = true
+		}
+		j := r.Intn(len(s.Refs))
+		k := 1
+		if !s.Fin {
+			k = 2
+		}
+		for _, p := range s.Refs[:j] {
+			if exists[p.Kind+"/"+p.Name] {
+				k++
+			} else {
+				k += 2
+			}
+		}
+		t := s.Refs[j]
+		s.Rounds[0].Miss = nil
+		s.Rounds[0].MissSel = nil
+		if exists[t.Kind+"/"+t.Name] {
+			s.Rounds[0].Miss = []xwRef{t}
+		}
+		s.Rounds[0].Fault = &xwFault{K: k + 1, O: Pick(r, []string{"fail", "fail", "conflict"})}
+	}
 	return s
 }
 
 func c03RunXW(s *xwScn) (c01Obs, []Mon) {
 	w := xwNewWorld(*s)
 	obs := c01Obs{}
+	created := []xwRef{} // composed resources created in the previous round
 	for i := range s.Rounds {
 		refs0, objs0, _ := w.view()
-		o := w.xwRunRound(s.Mode, &s.Rounds[i], nil)
-		c03CheckRound(s.Mode, &s.Rounds[i], refs0, objs0, o, w)
+		rd := &s.Rounds[i]
+		if rd.Miss == nil && len(rd.MissSel) > 0 {
+			rd.Miss = w.pickMiss(rd.MissSel, created)
+		}
+		rd.MissSel = nil
+		o := w.xwRunRound(s.Mode, rd, nil)
+		c03CheckRound(s.Mode, rd, refs0, objs0, o, w)
 		obs.Rounds = append(obs.Rounds, o)
+		had := map[string]bool{}
+		for _, ob := range objs0 {
+			had[ob.Kind+"/"+ob.Name] = true
+		}
+		created = created[:0]
+		_, objs1, _ := w.view()
+		for _, ob := range objs1 {
+			if !had[ob.Kind+"/"+ob.Name] {
+				created = append(created, xwRef{Kind: ob.Kind, Name: ob.Name})
+			}
+		}
 	}
 	// C01 monitors are not C03's business
 	var mons []Mon
@@ -127,6 +183,20 @@ func c03RunXW(s *xwScn) (c01Obs, []Mon) {
 	return obs, mons
 }
 
+// c03PipeRun runs a pipeline scenario (C04 family) and states C03's own clause on it: an answer
+// whose requirements did not stabilise must not lead to any write (C04 reports the acceptance
+// itself under its own signature, which C03's check does not count).
+func c03PipeRun(s c04Scn) (c04Obs, []Mon) {
+	obs, mons := c04Run(s)
+	for _, m := range mons {
+		if m.Sig == "C04:unstable-requirements-accepted" && obs.Writes > 0 {
+			mons = append(mons, Mon{Sig: "C03:write-with-unstable-requirements", Why: fmt.Sprintf("%d writes to composed resources / resourceRefs although %s", obs.Writes, m.Why)})
+			break
+		}
+	}
+	return obs, mons
+}
+
 func init() {
 	Register("C03", func(c *Ctx) {
 		for _, raw := range c.Corpus {
@@ -134,10 +204,22 @@ func init() {
 			if json.Unmarshal(raw, &probe) != nil {
 				continue
 			}
-			if _, ok := probe["steps"]; ok {
+			if _, ok := probe["direct"]; ok {
+				var s c03DirectScn
+				if json.Unmarshal(raw, &s) == nil && len(s.Steps) > 0 {
+					obs, mons := c03DirectRun(s)
+					c.Emit(s, obs, mons, "corpus")
+				}
+			} else if _, ok := probe["fetch"]; ok {
+				var s c03FetchScn
+				if json.Unmarshal(raw, &s) == nil && len(s.Answers) > 0 {
+					obs, mons := c03FetchRun(&s)
+					c.Emit(s, obs, mons, "corpus")
+				}
+			} else if _, ok := probe["steps"]; ok {
 				var s c04Scn
 				if json.Unmarshal(raw, &s) == nil {
-					obs, mons := c04Run(s)
+					obs, mons := c03PipeRun(s)
 					c.Emit(s, obs, mons, "corpus")
 				}
 			} else {
@@ -149,7 +231,23 @@ func init() {
 			}
 		}
 		for i := 0; i < c.N; i++ {
-			if i%2 == 0 {
+			if i%6 == 5 {
+				s, cls := c03DirectGen(c.Rng)
+				obs, mons := c03DirectRun(s)
+				c.Emit(s, obs, mons, cls)
+			} else if i%6 == 4 {
+				s := c03FetchGen(c.Rng)
+				obs, mons := c03FetchRun(&s)
+				res := obs.Result
+				if strings.HasPrefix(res, "ok") {
+					res = "ok"
+				}
+				fault := "none"
+				if s.Fault != nil {
+					fault = s.Fault.O
+				}
+				c.Emit(s, obs, mons, fmt.Sprintf("fetch/calls=%d/reads=%d/fault=%s/%s", len(obs.Reqs), min(len(obs.Calls), 4), fault, res))
+			} else if i%6 < 2 {
 				s := c03GenXW(c.Rng)
 				obs, mons := c03RunXW(&s)
 				fails, gcs := 0, 0
@@ -166,7 +264,7 @@ func init() {
 				c.Emit(s, obs, mons, fmt.Sprintf("xw/%s/fails=%d/deletes=%d", s.Mode, fails, min(gcs, 4)))
 			} else {
 				s := c04Gen(c.Rng)
-				obs, mons := c04Run(s)
+				obs, mons := c03PipeRun(s)
 				c.Emit(s, obs, mons, fmt.Sprintf("pipe/steps=%d/err=%v/writes=%d", len(s.Steps), obs.Err, min(obs.Writes, 6)))
 			}
 		}
